@@ -259,6 +259,8 @@ class C12(Prop):
             fs = op.split()
             ls = l.split()
             where = "op %d (%s)" % (i, op[:40])
+            if l == "skipped-after-hangs":     # the harness stops creating allocators after three hung calls
+                break
             if l in ("hang", "dead") or l.startswith("panic") or l in ("oob", "foreign") or l.startswith("badlen") \
                     or l.startswith("corrupt") or l == "badop":
                 if fs[0] == "alloc" and int(fs[1]) > MAXALLOC and l == "panic toobig":
